@@ -41,7 +41,38 @@ pub fn unr_space(k: usize) -> Space {
         space::Unary::Rep(0, None, frmc_core::ast::Mode::Lazy),
         space::Unary::Rep(2, None, frmc_core::ast::Mode::Greedy),
     ];
-    Space::new().exh("unrestricted", g, k).exh("conditional-loops", cl, 4).ctxfill(2, 1, &|_| true)
+    Space::new().exh("unrestricted", g, k).exh("conditional-loops", cl, 4).ctxfill(2, 1, &|_| true).list("alternation-positions", alternation_positions())
+}
+
+/// A loop in hard context over an alternation of 2..4 alternatives of which exactly one can match
+/// the empty string, in every position (the analysis folds the alternatives' sizes: first, middle and
+/// last are different code paths), for every loop kind, followed by something that fails or holds.
+fn alternation_positions() -> Vec<Node> {
+    use frmc_core::ast::{alt, cat, grp, la, la_empty, nla, opt, rep, Mode};
+    let letters = ["a", "b", "é"];
+    let mut out = Vec::new();
+    for n in 2..=4usize {
+        for p in 0..n {
+            for special in [Node::Empty, la_empty(), opt(lit("a")), grp(Node::Empty)] {
+                let mut alts = Vec::new();
+                let mut li = 0;
+                for i in 0..n {
+                    if i == p {
+                        alts.push(special.clone());
+                    } else {
+                        alts.push(lit(letters[li % 3]));
+                        li += 1;
+                    }
+                }
+                for (lo, hi, mode) in [(0u32, None, Mode::Greedy), (1, None, Mode::Greedy), (0, None, Mode::Lazy), (2, None, Mode::Greedy)] {
+                    for tail in [la(lit("b")), nla(lit("é"))] {
+                        out.push(cat(vec![rep(alt(alts.clone()), lo, hi, mode), tail]));
+                    }
+                }
+            }
+        }
+    }
+    out
 }
 
 fn span_ok(text: &str, s: usize, e: usize) -> bool {
@@ -185,13 +216,18 @@ pub fn run_c05(cx: &Ctx) -> i32 {
     t.count("wide_sweep_programs", t4.programs);
     t.count("wide_sweep_evaluations", t4.evaluations);
     t.merge(t4);
+    // characters whose case-folded partners have another UTF-8 length (an offset computed from the
+    // pattern's literal instead of the text lands inside a character)
+    let tcf = crate::casefold::iter_sweep();
+    t.count("casefold_iteration_sweep_runs", tcf.evaluations);
+    t.merge(tcf);
     finish(
         cx,
         t,
         Finish {
             rule: format!(
-                "every pattern of {} (no scoping filter: self-referential backreferences, conditions on open groups, empty loops, \\K and \\G anywhere) x every text over {:?} up to length {}; entry points: captures_from_pos at every char-boundary offset (all spans validated, Match::as_str / range / Index exercised), find_iter, captures_iter, split, splitn(0..3), try_replacen(0..2; constant, $0, [$1]); oracle: returns normally, spans satisfy start<=end<=len on char boundaries, iterators end within len+2 items; backtrack_limit 2000 and hook horizons so that a looping run is cut and reported; non-trivial = (pattern,text) where the pattern is VM-compiled and some offset has a match; plus a {} (here: every span of the widened pattern valid)",
-                space.describe(), alphabet, max_len, wide::describe(&wsp, 3)
+                "{}; every pattern of {} (no scoping filter: self-referential backreferences, conditions on open groups, empty loops, \\K and \\G anywhere) x every text over {:?} up to length {}; entry points: captures_from_pos at every char-boundary offset (all spans validated, Match::as_str / range / Index exercised), find_iter, captures_iter, split, splitn(0..3), try_replacen(0..2; constant, $0, [$1]); oracle: returns normally, spans satisfy start<=end<=len on char boundaries, iterators end within len+2 items; backtrack_limit 2000 and hook horizons so that a looping run is cut and reported; non-trivial = (pattern,text) where the pattern is VM-compiled and some offset has a match; plus a {} (here: every span of the widened pattern valid)",
+                crate::casefold::describe_iter(), space.describe(), alphabet, max_len, wide::describe(&wsp, 3)
             ),
             exhaustive: true,
             bounds: jobj! {"space" => space.describe(), "max_text_len" => max_len, "node_bound" => k},
